@@ -18,12 +18,17 @@ pub fn atom(n: usize) -> BoxedStrategy<F> {
 
 /// Random syntax over statements 0..n with all connectives.
 pub fn formula(n: usize, depth: u32) -> BoxedStrategy<F> {
+    formula_sized(n, depth, 24)
+}
+
+/// Random syntax with an explicit desired size.
+pub fn formula_sized(n: usize, depth: u32, size: u32) -> BoxedStrategy<F> {
     let leaf = prop_oneof![
         10 => atom(n),
         1 => Just(F::Top),
         1 => Just(F::Bot),
     ];
-    leaf.prop_recursive(depth, 24, 2, |inner| {
+    leaf.prop_recursive(depth, size, 2, |inner| {
         prop_oneof![
             3 => inner.clone().prop_map(F::not),
             3 => (inner.clone(), inner.clone()).prop_map(|(a, b)| F::and(a, b)),
@@ -296,6 +301,12 @@ pub fn layout(n: usize) -> BoxedStrategy<Layout> {
 /// Render an ADF as input text. Returns (text, declaration order = library variable order as a
 /// list of logical statement indices).
 pub fn render(acs: &[F], labels: &[String], layout: &Layout) -> (String, Vec<usize>) {
+    let (t, d, _) = render_full(acs, labels, layout);
+    (t, d)
+}
+
+/// as `render`, additionally the order of the ac facts in the text
+pub fn render_full(acs: &[F], labels: &[String], layout: &Layout) -> (String, Vec<usize>, Vec<usize>) {
     let n = acs.len();
     assert_eq!(labels.len(), n);
     let mut facts: Vec<(u16, usize, bool)> = Vec::new(); // (key, stmt, is_ac)
@@ -320,8 +331,10 @@ pub fn render(acs: &[F], labels: &[String], layout: &Layout) -> (String, Vec<usi
     let lab = |i: usize| quote(&labels[i]);
     let mut text = String::new();
     let mut decl = Vec::new();
+    let mut ac_order = Vec::new();
     for (_, s, is_ac) in facts {
         if is_ac {
+            ac_order.push(s);
             let w1 = next_ws(WS_COMMA);
             let w2 = next_ws(WS_COMMA);
             let body = acs[s].render(&lab, &mut || next_ws(WS_COMMA));
@@ -332,7 +345,7 @@ pub fn render(acs: &[F], labels: &[String], layout: &Layout) -> (String, Vec<usi
         }
         text.push_str(next_ws(WS_AFTER_DOT));
     }
-    (text, decl)
+    (text, decl, ac_order)
 }
 
 /// A fully specified ADF input case.
